@@ -45,7 +45,9 @@ def gen(rng):
         mn, mx, st = round(xs[0] - 2 * h, 6), round(xs[-1] + 2 * h, 6), h
     else:
         mn, mx, st = round(xs[0] + h / 3, 6), round(xs[-1] - h / 3, 6), h / 2
-    return dict(xs=xs, ys=ys, flags=flags, kind=kind, periodic=periodic, mn=mn, mx=mx, st=st)
+    # one input in four carries an error column (x y yerr flag: the layout csg_fmatch writes); the flag is the LAST column
+    errcol = rng.random() < 0.25
+    return dict(xs=xs, ys=ys, flags=flags, kind=kind, periodic=periodic, mn=mn, mx=mx, st=st, errcol=errcol)
 
 
 def read_table(p):
@@ -63,7 +65,10 @@ def run_one(exe, s):
     try:
         with open(os.path.join(d, "in"), "w") as f:
             for x, y, fl in zip(s["xs"], s["ys"], s["flags"]):
-                f.write("%r %r %s\n" % (x, y, fl))
+                if s.get("errcol"):
+                    f.write("%r %r %r %s\n" % (x, y, 0.125, fl))
+                else:
+                    f.write("%r %r %s\n" % (x, y, fl))
         cmd = [exe, "--in", "in", "--out", "out", "--derivative", "der", "--grid", "%r:%r:%r" % (s["mn"], s["st"], s["mx"]), "--type", s["kind"]]
         if s["periodic"]:
             cmd += ["--boundaries", "periodic"]
